@@ -642,6 +642,9 @@ class StyleGen(object):
                     out.append('<xsl:with-param name="%s" select="%s"/>' % (n, self.x.any(sc, 1)))
                 else:
                     out.append('<xsl:with-param name="%s">%s</xsl:with-param>' % (n, self.body(sc, 1, kw.pop('ctx', 'any'), novars=True, **kw)))
+        if self.globals and r.random() < 0.15:
+            # a parameter the callee does not declare is ignored (XSLT 11.6) - also when a global variable has that name
+            out.append('<xsl:with-param name="%s" select="\'WP\'"/>' % r.choice(self.globals)[0])
         return ''.join(out)
 
     def variable(self, sc, depth, ctx, in_foreach=False, named=False, tag='variable', name=None, noapply=False):
